@@ -245,3 +245,23 @@ def alias_root(cfg, nid, name, depth=6):
         nid, name = vs[0][0], vs[0][1].id
         depth -= 1
     return name
+
+
+def positional_args(cfg, nid, call):
+    """positional arguments of a call with `*name` expanded when `name` is (uniquely) a tuple / list literal at node nid
+    (`args = (a, b); f(*args)` is `f(a, b)`); None when a starred argument cannot be resolved"""
+    out = []
+    for a in call.args:
+        if isinstance(a, ast.Starred):
+            v = a.value
+            if isinstance(v, ast.Name):
+                vs = values(cfg, nid, v.id)
+                if vs and len(vs) == 1:
+                    v = vs[0][1]
+            if isinstance(v, (ast.Tuple, ast.List)) and not any(isinstance(e, ast.Starred) for e in v.elts):
+                out += list(v.elts)
+            else:
+                return None
+        else:
+            out.append(a)
+    return out
